@@ -17,12 +17,14 @@ RULE = ("module ASTs (all item kinds, nesting <=3, each item independently docum
         "option in a body}; distinct by SHA-1 of (AST, layout)")
 ASSUMPTIONS = ["member/test declarations are directly followed by their undocumented implementing definition",
                "doc texts are benign sentences (no reST markup) so the indentation view is exact",
-               "command names never collide with aggregator processor names other than the documented kinds"]
+               "command names never collide with aggregator processor names other than the documented kinds",
+               "an implementing definition that carries a doccomment of its own may or may not get an entry (left open); "
+               "everything around it is asserted"]
 BUDGET = {"quick": {"shards": 4, "examples": 300}, "thorough": {"shards": 16, "examples": 4000}}
 
 
 def strategy(tier):
-    p = G.Profile(max_items=8 if tier == "quick" else 14, depth=3 if tier == "quick" else 4)
+    p = G.Profile(max_items=8 if tier == "quick" else 14, depth=3 if tier == "quick" else 4, impl_doc=True, nest_all=True)
     return st.fixed_dictionaries({"module": G.module(p), "layout": G.layout_choices()})
 
 
@@ -79,6 +81,20 @@ def evaluate(case):
         res.fail(*f)
     for f in C.compare_entries(exp, page):
         res.fail(*f)
+    # second observation point: DocumentationAggregator.documented (public API), type + name sequence
+    api_kind = {"FunctionDocumentation": "function", "MacroDocumentation": "macro", "VariableDocumentation": "set",
+                "OptionDocumentation": "option", "GenericCommandDocumentation": "generic", "ClassDocumentation": "class",
+                "TestDocumentation": "test", "SectionDocumentation": "section", "CTestDocumentation": "addtest"}
+    got_api = [(api_kind.get(type(d).__name__, type(d).__name__), d.name) for d in (run.documented or [])
+               if type(d).__name__ != "ModuleDocumentation"]
+    want_api = [(e["kind"], e["name"]) for e in exp if not e.get("optional")]
+    opt_names = {e["name"] for e in exp if e.get("optional")}
+    got_api = [(k, n) for k, n in got_api if not (k in ("function", "macro") and n in opt_names)]
+    if [(k, n.lower() if k == "generic" else n) for k, n in got_api] != \
+            [(k, n.lower() if k == "generic" else n) for k, n in want_api]:
+        i = next((j for j, (a, b) in enumerate(zip(got_api, want_api)) if a != b), min(len(got_api), len(want_api)))
+        res.fail("api-documented-sequence", f"aggregator.documented differs from the expected sequence at {i}: "
+                                            f"got {got_api[i:i + 2]} expected {want_api[i:i + 2]}")
     # things that must leave no trace
     if "ZZCMT" in run.text:
         res.fail("comment-text-in-output", "annotation comment text reached the output")
